@@ -95,9 +95,16 @@ def _r151_152(ctx: Ctx) -> None:
            key='Analysis.aggregate|first', facts=first)
     # n_trials = len(effective_error) per entry (reader)
     mi2, re_fn = m.func('panqec.analysis', 'read_entry')
-    ok = any(isinstance(n, ast.Assign) and isinstance(n.targets[0], ast.Subscript)
-             and ast.unparse(n.targets[0].slice) == "'n_trials'"
-             and ast.unparse(n.value).replace(' ', '') == "len(entry['effective_error'])" for n in ast.walk(re_fn))
+    # interpreted on a record whose n_runs counter disagrees with the number of recorded trials (an interrupted run):
+    # the trials that exist are the ones that count
+    rec = {'inputs': {'code': {'name': 'C'}, 'error_rate': 0.1},
+           'results': {'effective_error': [[0, 1]] * 3, 'success': [True] * 3, 'codespace': [True] * 3,
+                       'n_runs': 99, 'wall_time': 1.0}}
+    it_ = Interp(m, _HNp())
+    outs_ = guard('R15.1', mi2, re_fn)(lambda: it_.explore(
+        lambda: it_.call_closure(Closure(re_fn, mi2), [rec], {'results_file': 'F'}, re_fn)))
+    ok = len(outs_) == 1 and outs_[0].kind == 'return' and isinstance(outs_[0].value, list) and len(outs_[0].value) == 1 \
+        and isinstance(outs_[0].value[0], dict) and outs_[0].value[0].get('n_trials') == 3
     ctx.ob('R15.1', site_of(mi2, re_fn), "read_entry: n_trials = len(effective_error)", ok, 'n_trials is not the number of '
            'recorded trials', key='read_entry|n_trials')
     # R15.2 group-by key
